@@ -19,7 +19,7 @@ GROUP = dict(
     reviewed_compiler_conditionals=['src/babylon/concurrent/bounded_queue.h:#if !__clang__ && BABYLON_GCC_VERSION < 50000'],
     assumptions=['ConcurrentBoundedQueue push/pop/try_pop/size, EnumerableThreadLocal local()/for_each, std::thread and std::vector<std::thread> are contract stubs: a pop delivers a task that was pushed, once (C01); join returns when the thread function returned',
                  'function objects are identified by a ghost id in the opaque MoveOnlyFunction; move leaves the source empty (stub of the move constructor)',
-                 'not under contract: futures/results of submit (executor.hpp), start(), keep_balance, the bodies of RunnerScope / is_running_in (stubs: a scope marks its executor as current on this thread)'],
+                 'not under contract: futures/results of submit (executor.hpp), start(); RunnerScope / is_running_in are stubs here (a scope marks its executor as current on this thread); their bodies are under contract in group c07_scope'],
     jobs=[
         dict(id='C07.steal', enforce='Pool_keep_execute_lambda_executor_keep_execute_1_op_call', loops=True, backend='cadical'),
         dict(id='C07.keep_execute', enforce='Pool_keep_execute', loops=True, backend='cadical'),
